@@ -51,7 +51,7 @@ func c06Fail(kind string) string {
 
 func c06Script(c c06Case, depth int) string {
 	var sb strings.Builder
-	sb.WriteString("global (gopanic, cbcall, fin)\nparam (a, b)\n")
+	sb.WriteString("global (gopanic, cbcall, cbcall2, fin)\nparam (a, b)\n")
 	sb.WriteString("fail := func() {\n" + c06Fail(c.Kind) + "\nreturn \"nofail\"\n}\n")
 	body := ""
 	switch c.Ctx {
@@ -67,6 +67,13 @@ func c06Script(c c06Case, depth int) string {
 		body = "return cbcall(fail)"
 	case "callback-try":
 		body = "try { cbcall(fail) } catch e { return \"caught\" }\nreturn \"nothing-thrown\""
+	case "try-in-callback":
+		body = "return cbcall(func() { try { fail() } catch e { return \"caught\" }; return \"nothing-thrown\" })"
+	case "try-in-callback-unpooled":
+		body = "return cbcall2(func() { try { fail() } catch e { return \"caught\" }; return \"nothing-thrown\" })"
+	case "host-invoke", "host-invoke-unpooled":
+		// the host calls the returned function itself after Run
+		body = "return fail"
 	}
 	switch c.Depth {
 	case "shallow":
@@ -147,7 +154,7 @@ func init() {
 				}
 				for ai, as := range argsets {
 					runs++
-					g := ugo.Map{"gopanic": gopanic, "cbcall": hostCall(true), "fin": ugo.False}
+					g := ugo.Map{"gopanic": gopanic, "cbcall": hostCall(true), "cbcall2": hostCall(false), "fin": ugo.False}
 					vm := ugo.NewVM(bc).SetRecover(true)
 					type res struct {
 						ret   ugo.Object
@@ -162,6 +169,14 @@ func init() {
 							}
 						}()
 						ret, err := vm.Run(g, as...)
+						if strings.HasPrefix(c.Ctx, "host-invoke") && err == nil && ret != nil && ret.CanCall() {
+							inv := ugo.NewInvoker(vm, ret)
+							if c.Ctx == "host-invoke" {
+								inv.Acquire()
+								defer inv.Release()
+							}
+							ret, err = inv.Invoke()
+						}
 						ch <- res{ret: ret, err: err}
 					}()
 					var r res
